@@ -3,6 +3,9 @@
 //! result: `N <feedlen> | L <off> <line|-> <col|-> ... | S <s> <e> <st> <en>|P ...`
 //! over all char-boundary offsets / spans of the concatenated text, plus
 //! one out-of-range offset.
+//! `Q <chunk> ; <chunk> ... @ s e s e ...`: the same for LONG texts: line / line-byte at every byte offset, line-col at
+//! every boundary, but span_line_bytes / line_col / span_lines_str only for the listed spans (the reader looks the
+//! expected answers up in the model's answer for the `T` line of the same chunks).
 //! `D<flags> <plen> ; <code points>` and `G<flags> <code points> ; <spans>`: SpannedDiagnosticFormatter
 //! (lrpar/src/lib/diagnostics.rs), see `diag_case` / `spanned_case`; `C <hex grammar>`: `conflicts_case`;
 //! `E <code points>`: `LexParseError::pp` of errors that COVER text (hand-built lexers), see `errpp_case`.
@@ -98,15 +101,23 @@ fn spanned_case(line: &str) -> String {
 
 /// NonStreamingLexer::{line_col, span_lines_str} and LexParseError::pp on the same
 /// text: every character lexes except 'X' (no rule) and 'Y' (rule without token id).
-fn lexer_queries(out: &mut String, text: &str, bounds: &[usize]) {
+fn lexer_queries(out: &mut String, text: &str, bounds: &[usize], only: Option<&[(usize, usize)]>) {
     // 'X' is matched by no rule; 'Y' is matched by a named rule that has no token id
     // (a token "missing from the parser"): two different error paths of the scan loop.
     let mut def = LRNonStreamingLexerDef::<DefaultLexerTypes<u32>>::from_str("%%\n[^XY] 'c'\nY 'M'\n").unwrap();
     let ids: std::collections::HashMap<&str, u32> = [("c", 0u32)].into_iter().collect();
     let _ = def.set_rule_ids(&ids);
     let lexer = def.lexer(text);
-    for (i, &s) in bounds.iter().enumerate() {
-        for &e in &bounds[i..] {
+    let all: Vec<(usize, usize)>;
+    let spans: &[(usize, usize)] = match only {
+        Some(v) => v,
+        None => {
+            all = bounds.iter().enumerate().flat_map(|(i, &s)| bounds[i..].iter().map(move |&e| (s, e))).collect();
+            &all
+        }
+    };
+    {
+        for &(s, e) in spans {
             let r = catch(std::panic::AssertUnwindSafe(|| lexer.line_col(Span::new(s, e))));
             match r {
                 Ok(((l1, c1), (l2, c2))) => write!(out, " | LC {} {} {} {} {} {}", s, e, l1, c1, l2, c2).unwrap(),
@@ -277,6 +288,14 @@ fn main() {
         if let Some(rest) = line.strip_prefix("G") {
             return spanned_case(rest.trim_start_matches(|ch: char| !ch.is_whitespace()));
         }
+        let (line, only): (&str, Option<Vec<(usize, usize)>>) = match line.strip_prefix("Q") {
+            Some(rest) => {
+                let (a, b) = rest.split_once('@').unwrap_or((rest, ""));
+                let v: Vec<usize> = b.split_whitespace().map(|t| t.parse().expect("offset")).collect();
+                (a, Some(v.chunks(2).filter(|p| p.len() == 2).map(|p| (p[0], p[1])).collect()))
+            }
+            None => (line, None),
+        };
         let line = line.strip_prefix("T").unwrap_or(line);
         let chunks: Vec<String> = line.split(';').map(cps_to_string).collect();
         let text: String = chunks.concat();
@@ -319,8 +338,12 @@ fn main() {
                 Err(_) => write!(out, " | L {} P P", off).unwrap(),
             }
         }
-        for (i, &s) in bounds.iter().enumerate() {
-            for &e in &bounds[i..] {
+        let all: Vec<(usize, usize)> = match only {
+            Some(ref v) => v.clone(),
+            None => bounds.iter().enumerate().flat_map(|(i, &s)| bounds[i..].iter().map(move |&e| (s, e))).collect(),
+        };
+        {
+            for &(s, e) in &all {
                 let r = catch(std::panic::AssertUnwindSafe(|| {
                     cache.span_line_bytes(Span::new(s, e))
                 }));
@@ -330,7 +353,7 @@ fn main() {
                 }
             }
         }
-        lexer_queries(&mut out, &text, &bounds);
+        lexer_queries(&mut out, &text, &bounds, only.as_deref());
         out
     });
 }
